@@ -37,6 +37,7 @@ type c20API struct {
 	HasIop bool
 
 	NewDomain       func(card int) any
+	NewDomainShift  func(card int, shiftRaw *big.Int) any
 	DomainInfo      func(d any) (card int, gen, cosetGen *big.Int)
 	NewPoly         func(raws []*big.Int, basis, layout int) any
 	Snap            func(p any) c20Snap
@@ -1055,6 +1056,48 @@ func (m *c20Iop) divide(id, card0, card1 int) int {
 	return dst
 }
 
+// divideShifted: a polynomial a of size n in canonical form is moved to the coset of a big domain of cardinality N that
+// carries its OWN coset shift s1 (fft.WithShift), and divided by X^n - 1 with a small domain that carries another shift.
+// The event is self-contained (raw coefficients of a, raw reply R): the documented contract R(x) (x^n - 1) = a(x) on the
+// coset s1<w_N> is, coefficient-wise, R (X^n - 1) = a mod (X^N - s1^N), which the specification checks without any FFT.
+// Everything is linear in a and R, so the check runs on the raw (Montgomery) words as logged.
+func (m *c20Iop) divideShifted(n, ratio int) {
+	if m.api.NewDomainShift == nil {
+		return
+	}
+	N := n * ratio
+	a := m.rndVals(n) // used as raw words (any word below q is a legal raw element)
+	for _, shifts := range [][2]int64{{0, 7}, {5, 0}, {3, 11}} {
+		e := Ev{"op": "DivideShifted", "n": n, "N": N, "a": c20Digits(a), "s0": digits(big.NewInt(shifts[0])),
+			"s1": digits(big.NewInt(shifts[1]))}
+		mk := func(card int, sh int64) any {
+			if sh == 0 {
+				return m.api.NewDomain(card)
+			}
+			return m.api.NewDomainShift(card, m.f.ToMont(big.NewInt(sh)))
+		}
+		var res any
+		var err error
+		msg, pk := c20try(func() {
+			d0, d1 := mk(n, shifts[0]), mk(N, shifts[1])
+			p := m.api.NewPoly(a, c20Canonical, c20Regular)
+			m.api.ToLagrangeCoset(p, d1)
+			res, err = m.api.Divide(p, d0, d1)
+		})
+		switch {
+		case pk:
+			e["panic"] = msg
+		case err != nil:
+			e["err"] = err.Error()
+		default:
+			sn := m.api.Snap(res)
+			e["out"] = c20Digits(sn.Raws)
+			e["basis"], e["layout"] = sn.Basis, sn.Layout
+		}
+		m.t.Emit(e)
+	}
+}
+
 func (m *c20Iop) divideScenarios(n int) {
 	for _, ratio := range []int{1, 2, 4} {
 		if n*ratio > m.nmax {
@@ -1381,6 +1424,11 @@ func (m *c20Iop) run(level int) {
 	for _, n := range [][]int{{1, 4}, {1, 2, 4, 8, 16}, {1, 2, 4, 8, 16, 32, 64}}[level] {
 		m.exprScenarios(n)
 		m.divideScenarios(n)
+		for _, ratio := range []int{1, 2, 4} {
+			if n*ratio >= 2 && n*ratio <= m.nmax {
+				m.divideShifted(n, ratio)
+			}
+		}
 		m.ratioScenarios(n)
 		m.copyScenarios(n)
 	}
